@@ -1191,3 +1191,84 @@ package otto
 //@   ensures is(old(in.value), bindFunctionObject) ==> len(out.value.(bindFunctionObject).argumentList) == old(len(in.value.(bindFunctionObject).argumentList))
 //@   ensures is(old(in.value), nodeFunctionObject) ==> is(out.value, nodeFunctionObject) && out.value.(nodeFunctionObject).node == old(in.value.(nodeFunctionObject).node)
 //@   ensures is(old(in.value), argumentsObject) ==> is(out.value, argumentsObject)
+
+// ---------------------------------------------------------------------------
+// value.go: JavaScript value -> Go value of a requested type (C16)
+// ---------------------------------------------------------------------------
+
+// A JavaScript number handed to Go as an integer of some width arrives as exactly the
+// integer it denotes, or the conversion fails: whenever toReflectValue boxes an integer
+// for the caller (reflect.ValueOf), that integer is numerically equal to the number -
+// never a truncated fraction, a wrapped-around out-of-range value or a stand-in for NaN.
+//@ func (Value).toReflectValue
+//@   props C16
+//@   nosafety
+//@   unfold numOf intOf
+//@   requires jsValue(v) && typ != nil
+//@   at_call reflect.ValueOf : isGoNumber(v) && is(arg0, int) ==> float64(arg0.(int)) == numOf(v)
+//@   at_call reflect.ValueOf : isGoNumber(v) && is(arg0, int8) ==> float64(arg0.(int8)) == numOf(v)
+//@   at_call reflect.ValueOf : isGoNumber(v) && is(arg0, int16) ==> float64(arg0.(int16)) == numOf(v)
+//@   at_call reflect.ValueOf : isGoNumber(v) && is(arg0, int32) ==> float64(arg0.(int32)) == numOf(v)
+//@   at_call reflect.ValueOf : isGoNumber(v) && is(arg0, int64) ==> float64(arg0.(int64)) == numOf(v)
+//@   at_call reflect.ValueOf : isGoNumber(v) && is(arg0, uint) ==> float64(arg0.(uint)) == numOf(v)
+//@   at_call reflect.ValueOf : isGoNumber(v) && is(arg0, uint8) ==> float64(arg0.(uint8)) == numOf(v)
+//@   at_call reflect.ValueOf : isGoNumber(v) && is(arg0, uint16) ==> float64(arg0.(uint16)) == numOf(v)
+//@   at_call reflect.ValueOf : isGoNumber(v) && is(arg0, uint32) ==> float64(arg0.(uint32)) == numOf(v)
+//@   at_call reflect.ValueOf : isGoNumber(v) && is(arg0, uint64) ==> float64(arg0.(uint64)) == numOf(v)
+//@   at_call reflect.ValueOf : isGoNumber(v) && is(arg0, float64) ==> sameFloat(arg0.(float64), numOf(v))
+
+// export of a primitive number or boolean is its payload, unchanged
+//@ func (Value).export
+//@   props C15 C16
+//@   nosafety
+//@   ensures v.kind == valueNumber || v.kind == valueBoolean ==> result == v.value
+//@   ensures v.kind == valueUndefined || v.kind == valueNull ==> result == nil
+//@   ensures v.kind == valueString && is(v.value, string) ==> is(result, string) && result.(string) == v.value.(string)
+
+// reflect.Value seen as a number (abstract view; reflect itself is an assumed library)
+//@ spec rvSigned(x reflect.Value) bool = rvkind(x) >= 2 && rvkind(x) <= 6
+//@ spec rvUnsigned(x reflect.Value) bool = rvkind(x) >= 7 && rvkind(x) <= 11
+//@ spec rvNum(x reflect.Value) float64 = ite(rvSigned(x), float64(rvint(x)), ite(rvUnsigned(x), float64(rvuint(x)), rvfloat(x)))
+
+// A JavaScript number passed to a Go parameter of a numeric type arrives as a value of
+// exactly that kind that is numerically equal to the number - or the call throws
+// (RangeError / TypeError): no truncated fraction, no wrap-around, no sign change.
+//@ func (*runtime).convertNumeric
+//@   props C16
+//@   nosafety
+//@   unfold numOf intOf
+//@   requires rt != nil && jsValue(v) && isGoNumber(v) && t != nil
+//@   requires typekind(t) >= 2 && typekind(t) <= 14 && typekind(t) != 12
+//@   ensures rvkind(result) == typekind(t)
+//@   ensures typekind(t) <= 11 ==> rvNum(result) == numOf(v)
+//@   ensures typekind(t) <= 6 && (is(v.value, int) || is(v.value, int8) || is(v.value, int16) || is(v.value, int32) || is(v.value, int64)) ==> rvint(result) == intOf(v)
+//@   ensures typekind(t) == 14 ==> sameFloat(rvNum(result), numOf(v))
+
+// Only fields and methods whose Go name starts with an upper-case ASCII letter are
+// visible to scripts (exported names), every one of A..Z included.
+//@ func validGoStructName
+//@   props C16
+//@   safety C02 C16
+//@   ensures result == (len(name) > 0 && name[0] >= 'A' && name[0] <= 'Z')
+
+// Stores into bridged Go containers convert the JavaScript value with toReflectValue /
+// stringToReflectValue; a failed conversion must surface as a JavaScript exception.  The
+// code raises the Go error itself (panic(err)), which is not an exception the script or
+// Run can catch as one: recorded as known finding go-container-conversion-panics.
+//@ func (*goSliceObject).setValue
+//@   props C16
+//@   safety C02 C16
+//@   requires o != nil && jsValue(value)
+//@ func (goArrayObject).setValue
+//@   props C16
+//@   safety C02 C16
+//@   requires jsValue(value)
+//@ func (goMapObject).toValue
+//@   props C16
+//@   safety C02 C16
+//@   requires jsValue(value)
+//@   assumes o.valueType != nil
+//@ func (goMapObject).toKey
+//@   props C16
+//@   safety C02 C16
+//@   assumes o.keyType != nil
